@@ -208,7 +208,7 @@ def proof_status(prop):
             assumptions[name] = []
         else:
             ax = re.findall(r'^([A-Za-z0-9_.\']+)\s*:', c, re.M)
-            assumptions[name] = [a for a in ax if a != 'Axioms']
+            assumptions[name] = [a for a in ax if a not in ('Axioms', 'Warning', 'File')]   # coqc warnings of later commands land in the same chunk
     return {'exists': True, 'theorems': theorems, 'ok': rc == 0, 'assumptions': assumptions,
             'log': log[-3000:], 'printed': printed}
 
